@@ -143,10 +143,10 @@ PROPERTIES = {
     },
     "C14": {
         "title": "Transport parameters are validated and applied exactly as RFC 9000 specifies",
-        "steps": [seq("c14.*")],
+        "steps": [seq("c14.*"), net("C14")],
         "technique": "bounded-exhaustive enumeration of raw transport-parameter blocks against an independent RFC 9000 18.2/7.4 acceptance table",
         "level_text": "1.9 M (quick) / 29 M (thorough) raw blocks built byte by byte (never with the repository's encoder): every parameter at and around each bound in every legal varint size, malformed forms, framing damage, all ordered pairs (=> every duplicate) and triples of 623 atoms, unknown/GREASE ids, server-only parameters in client blocks, both roles; oracle: real decode accepts <=> the table accepts, every decoded field equals the declared value or the RFC default, and the values derived for the connection (flow-control limits, stream limits, ACK settings, datagram limits, idle timeout) equal the declared ones.",
-        "level_note": "Component level (s2n-quic-core public API). The connection-id matching clause and the error code put on the wire live in private transport code and are not covered in this revision. One defect was repaired (max_ack_delay 2^14, fix: commit); three deviations are listed known findings (non-minimal ack_delay_exponent rejected, short retry_source_connection_id rejected, preferred_address with empty connection id accepted).",
+        "level_note": "Component level (s2n-quic-core public API) plus the netmc tpe2e family: a wrapper around the null TLS endpoint edits the transport-parameter block one side sends (27 items: each bound at its last valid and first invalid value, duplicates, server-only parameters sent by a client, initial_source_connection_id / original_destination_connection_id mismatching or missing, retry_source_connection_id without Retry, unknown/GREASE ids, and declared-limit edits) - the receiving endpoint must close with TRANSPORT_PARAMETER_ERROR (or a generic code) exactly for the invalid blocks, complete the transfer for the valid ones, and obey the declared limits (FC monitor). One defect was repaired (max_ack_delay 2^14, fix: commit); three deviations are listed known findings (non-minimal ack_delay_exponent rejected, short retry_source_connection_id rejected, preferred_address with empty connection id accepted).",
         "design_ref": "DESIGN.md §3 C14",
         "assumptions": ["the acceptance table in engines/seqmc/src/c14.rs transcribes RFC 9000 correctly"],
     },
